@@ -1,6 +1,7 @@
 """C07 -- conditionals (TexCond.tla) and \\expandafter / \\noexpand (TexExpand.tla)."""
 import json
 from vlib import *
+from texvm import texvm_part, texvm_selftest
 
 LEVEL = "model_checking"
 EXP_DEVS = {"noexpand-lost-under-expandafter": "Trace_TexExpand_dev.cfg"}
@@ -80,6 +81,8 @@ def run(ctx):
         "a token protected by \\noexpand is observed through the VM's unexpanded_expansion_command handler",
         "streams on which TeX itself hits end of input after \\expandafter/\\noexpand are skipped (C09's domain)",
     ]
+    # ---- the composed model: whole programs over the full primitive set (TexVM.tla) ------------
+    texvm_part(ctx, 6000 if ctx.quick else 120000, 707)
 
 
 def selftest(ctx):
@@ -98,6 +101,7 @@ def selftest(ctx):
     for c in ["NEG_TexCond_ElseAnyDepth.cfg", "NEG_TexCond_OrAnyDepth.cfg"]:
         tlc_expect_refuted("MC_TexCond", c, c, workers=3)
     tlc_expect_refuted("MC_TexExpand", "NEG_TexExpand_ChainReversed.cfg", "chain reversed", workers=3)
+    texvm_selftest(ctx)
     ctx.cov["rule"] = "selftest: corrupted recordings must be rejected, originals accepted, spec mutants refuted"
 
 
